@@ -350,8 +350,12 @@ def map_space(tier):
         out.append(("alu", (base, m, base)))
         out.append(("alu", (base, base, m)))
     for m in menu:
-        for n in (4, 8, 16):
+        for n in (4, 6, 8, 16):
             out.append(("gemmx", n, m))
+    # gemmx array geometries: every n (the number of per-column shift / multiplier registers depends on n and on ceil(n / 4)) x a few m, k
+    for n in range(1, 18 if tier == "quick" else 34):
+        for mk in ((n, n), (8, 8), (4, 16), (1, 3)):
+            out.append(("gemmx3", mk[0], n, mk[1]))
     for nsw in range(0, 8):
         out.append(("phs", nsw))
     ext_subsets = list(itertools.chain.from_iterable(itertools.combinations(range(7), k) for k in (0, 1, 2, 7)))
@@ -398,6 +402,10 @@ def build_acc(spec):
             return GX.SNAXGEMMXAccelerator(cfg, m=n, n=n, k=n)
         except TypeError:
             return GX.SNAXGEMMXAccelerator(cfg)
+    if kind == "gemmx3":
+        from snaxc.accelerators import snax_gemmx as GX
+
+        return GX.SNAXGEMMXAccelerator(S.StreamerConfiguration(list(GX.default_streamer.streamers)), m=spec[1], n=spec[2], k=spec[3])
     if kind == "phs":
         return build_phs(spec[1])
     if kind == "xdma":
